@@ -3,6 +3,7 @@ package h
 import (
 	"fmt"
 	"math/rand"
+	"runtime/debug"
 )
 
 // SeqProfile parameterises the random sequential history generator. The generator is online: it
@@ -278,10 +279,18 @@ func (g *seqGen) snapCycle(n int) {
 }
 
 // RunSeq runs one random sequential history and returns its events.
-func RunSeq(seed int64, p SeqProfile) []Ev {
+func RunSeq(seed int64, p SeqProfile) (out []Ev) {
 	g := &seqGen{p: p, rnd: rand.New(rand.NewSource(seed)), w: NewWorld(), affine: map[string]int{}}
 	w := g.w
 	defer w.Close()
+	defer func() {
+		// a panic of the library is something the real code did: it is recorded, and no action of the
+		// specification explains it
+		if r := recover(); r != nil {
+			w.T.Log(Ev{"e": "panic", "t": "m", "what": fmt.Sprint(r), "stack": string(debug.Stack())})
+			out = w.T.Finish()
+		}
+	}()
 	g.P = w.NewColl("P", p.Capacity, p.Transport, 0)
 	if p.Replica {
 		g.R = w.NewColl("R", p.Capacity, p.Transport, 0)
@@ -310,6 +319,18 @@ func RunSeq(seed int64, p SeqProfile) []Ev {
 	}
 	g.prologue()
 	g.dump()
+	if p.PSnap > 0 && g.rnd.Intn(6) == 0 {
+		// a failed first insert, then a snapshot at once
+		g.P.Txn("m", func(x *Tx) error {
+			if p.Keyed {
+				x.InsertKey("k1", nil, true)
+			} else {
+				x.Insert(nil, true)
+			}
+			return ErrFail
+		})
+		g.snapCycle(9)
+	}
 	cycles := 0
 	for step := 0; step < p.Steps; step++ {
 		if g.rnd.Float64() < p.PSnap && cycles < 3 {
